@@ -137,3 +137,38 @@ def full_declaration(prop="C18"):
     c.no_raise = True
     c.z3_timeout_ms, c.cvc5_on_unknown = 8000, True
     return c
+
+
+def literal_reinsertion_is_last(prop="C18"):
+    """line_to_variables: once the captured literals are put back into `initial`, nothing rewrites `initial` any more (so text inside a literal is only touched by the
+    two documented transformations inside the re-insertion loop)"""
+    fn = loader.find_def("ford.sourceform", "line_to_variables")
+    out = []
+    blocks = [n for n in ast.walk(fn) if isinstance(n, ast.If) and ast.unparse(n.test) == "initial"]
+    oid = f"{prop}.S.line_to_variables.nothing_rewrites_the_value_after_literal_reinsertion"
+    if len(blocks) != 1:
+        return [OR(id=oid, status=UNKNOWN, kind="S", role="post", backend="ast", target="ford.sourceform.line_to_variables", detail=f"`if initial:` block: {len(blocks)} matches")]
+    body = blocks[0].body
+    loops = [i for i, st in enumerate(body) if isinstance(st, ast.While) and "QUOTES_RE.search(initial" in ast.unparse(st.test)]
+    if len(loops) != 1:
+        return [OR(id=oid, status=UNKNOWN, kind="S", role="post", backend="ast", target="ford.sourceform.line_to_variables", detail="re-insertion loop not found")]
+    later = []
+    # statements after the loop inside the block, and after the block up to the construction of the variable
+    outer = None
+    for n in ast.walk(fn):
+        if isinstance(n, ast.For) and blocks[0] in n.body:
+            outer = n
+    after = body[loops[0] + 1:] + (outer.body[outer.body.index(blocks[0]) + 1:] if outer is not None else [])
+    for st in after:
+        for n in ast.walk(st):
+            tg = n.targets if isinstance(n, ast.Assign) else [n.target] if isinstance(n, (ast.AugAssign, ast.AnnAssign)) else []
+            if any(isinstance(t, ast.Name) and t.id == "initial" for t in tg):
+                later.append(ast.unparse(n))
+    # inside the loop only the two documented transformations may touch the literal text
+    inside = [ast.unparse(n) for n in ast.walk(body[loops[0]]) if isinstance(n, ast.Assign) and any(isinstance(t, ast.Name) and t.id == "string" for t in n.targets)]
+    allowed = ["string = NBSP_RE.sub('\\xa0', parent.strings[num])", "string = string.replace('\\\\', '\\\\\\\\')"]
+    ok = not later and inside == allowed
+    out.append(OR(id=oid, status=PROVED if ok else REFUTED, kind="S", role="post", backend="ast", target="ford.sourceform.line_to_variables",
+                  desc="after the loop that puts the captured literals back, `initial` is only read; inside it a literal is changed only by the NBSP substitution for runs of blanks "
+                       "and the doubling of backslashes", witness=None if ok else {"assignments to `initial` after the re-insertion": later, "transformations of the literal": inside}))
+    return out
